@@ -241,3 +241,44 @@ def weight_cut_scalar_form():
 @harness(clause="delivery")
 def weight_cut_pair_form():
     _weight_cut("pair", (real("sw_min", 0, 1), real("iw_min", 0, 1)), True)
+
+
+@harness(clause="delivery")
+def each_accepted_particle_is_traced_from_its_own_vertex():
+    """three particles, the last two at the same vertex, any of them possibly below the weight cut: every signal an antenna
+    receives belongs to a ray solution between THAT particle's vertex and the antenna (its grid is the configured one
+    delayed by that solution's time of flight), whatever happened to the particles before it"""
+    use_lib_stub("np.arccos", lambda x: pi / 3)
+
+    def rejecting_model(**kw):                              # the signal model rejects every view: empty signals on the delayed grid
+        raise ValueError("no signal for this view")
+    use_stub("pyrex.internal_functions.normalize", lambda v: v)
+    ws = [real("weight_%d" % i, 0, 1) for i in range(3)]
+    depth = [-500, -700, -700]
+    parts = [FakeParticle(i, ws[i]) for i in range(3)]
+    for i in range(3):
+        parts[i].vertex = np.array([0, 0, depth[i]])
+    ant = FakeAntenna(0)
+    tofs = {-500: real("tof_from_the_first_vertex", 1e-7, 1e-5), -700: real("tof_from_the_second_vertex", 1e-7, 1e-5)}
+    assume(Not(eq(tofs[-500], tofs[-700])))
+    traced = []
+
+    class Tracer:
+        def __init__(self, from_point, to_point, ice_model=None):
+            z = -500 if from_point[2] == -500 else -700
+            traced.append(z)
+            self.exists = True
+            self.solutions = [FakePath(z, tofs[z], vec("emitted_%d" % (-z)))]
+    ice = obj("pyrex.ice_model.AntarcticIce", n0=1.78, k=0.43, a=0.0132, valid_range=(-2850, 0), _index_above=1, _index_below=None)
+    times = symarr("signal_times")
+    wmin = real("weight_min", 0, 1)
+    k = new(EK, FakeGenerator([parts]), [ant], ice_model=ice, ray_tracer=Tracer, signal_model=rejecting_model,
+            signal_times=times, event_writer=None, triggers=None, offcone_max=40, weight_min=wmin)
+    k.event()
+    accepted = [i for i in range(3) if Not(ws[i] < wmin)]
+    prove("one-signal-per-accepted-particle", len(ant.received) == len(accepted))
+    j = fresh_index("j", len(times))
+    for pos, i in enumerate(accepted):
+        sig = ant.received[pos][0]
+        prove("signal-%d-is-on-the-grid-delayed-by-the-flight-time-from-its-own-vertex" % pos,
+              And(len(sig.times) == len(times), eq(sig.times[j], times[j] + tofs[depth[i]])))
